@@ -12,7 +12,7 @@ const SPEC: Spec = Spec {
     ],
     bounds_quick: "26 bases x every e in 0..=200; bases 0,+-1,+-2 x every e < 4096; BigUint exponents at 2^64-1, 2^64, 2^128-1, 2^128, 2^200 with bases 0,+-1",
     bounds_thorough: "26 bases x every e in 0..=600 (3-digit bases up to e=300); bases 0,+-1,+-2 x every e < 16384; edge exponents",
-    hang_secs: 600,
+    hang_secs: 60,
     probes: None,
     max_workers: 16,
 };
